@@ -2,7 +2,12 @@
 Property C17 "Column administration and option checks never touch other columns' data".
 
 Model: Pdb/Model/Meta.lean (text is `List Char`; `t!"abc"` is the literal `['a','b','c']`).
-Lemmas: Pdb/Proofs/C17Text.lean, C17Meta.lean, C17Dir.lean.  Behaviours of the modelled
+The model is built from the string literals, format strings and decision tables that
+tools/rs2lean_text.py extracts from the Rust source on every run (Pdb/Gen/Text.lean): the
+theorems below are re-proved against what the code says now; the obligations on the generated
+constants (`T0 obligation` in Pdb/Proofs/C17Gen.lean, C17Text.lean, C17Meta.lean, C17Dir.lean)
+are discharged by `decide`.
+Lemmas: Pdb/Proofs/C17Text.lean, C17Gen.lean, C17Meta.lean, C17Dir.lean.  Behaviours of the modelled
 code that deviate from the prose property are proved as theorems in
 Pdb/Proofs/C17Findings.lean.
 
@@ -34,6 +39,56 @@ example : (⟨false, false, true, .Snappy, true, true, true, true⟩ : ColumnOpt
     fromString (asString ⟨false, false, true, .Snappy, true, true, true, true⟩) =
       .ok ⟨false, false, true, .Snappy, true, true, true, true⟩ := ⟨by decide, C17_codec _⟩
 example : fromString t!"uniform: false, refc: false" = .none := by decide
+
+/-- `ColumnOptions::is_valid` (generated from the `if .. { return false }` chain of the source)
+rejects exactly: reference counting without `preimage`, reference counting on an append-only
+column, compression on a multitree column.  This is the table the c17 harness assumes when it
+classifies option sets as valid / invalid (`uniform`, `btree_index`,
+`allow_direct_node_access` are irrelevant). -/
+theorem C17_isValid_table (o : ColumnOptions) :
+    o.isValid = true ↔
+      (o.refCounted = true → o.preimage = true) ∧
+      (o.refCounted = true → o.appendOnly = false) ∧
+      (o.multitree = true → o.compression = .NoCompression) := by
+  rw [isValid_table]
+  obtain ⟨p, u, r, c, b, m, a, d⟩ := o
+  cases p <;> cases r <;> cases c <;> cases m <;> cases a <;> simp
+
+-- non-vacuity: 160 of the 384 combinations are valid; each condition rejects something.
+example : (allOptions.filter ColumnOptions.isValid).length = 160 := by decide +kernel
+example : (⟨false, false, true, .NoCompression, false, false, false, false⟩ : ColumnOptions).isValid
+      = false ∧
+    (⟨true, false, true, .NoCompression, false, false, true, false⟩ : ColumnOptions).isValid = false ∧
+    (⟨true, false, false, .Lz4, false, true, false, false⟩ : ColumnOptions).isValid = false ∧
+    (⟨true, false, true, .Lz4, true, false, false, true⟩ : ColumnOptions).isValid = true := by decide
+
+/-- The on-disk text format, pinned on a sample: databases written by the released crate carry
+exactly these texts and names, so ANY change of a literal, a format string, an argument order, a
+separator or a compression code in the Rust source (even one that keeps writer and reader
+consistent with each other) breaks this theorem. -/
+theorem C17_format_golden :
+    encodeMeta 8 (List.replicate 32 171)
+      [⟨true, false, true, .Lz4, false, true, false, true⟩,
+       ⟨false, true, false, .Snappy, true, false, true, false⟩,
+       ⟨false, false, false, .NoCompression, false, false, false, false⟩] =
+      t!"version=8\nsalt=abababababababababababababababababababababababababababababababab\ncol0=preimage: true, uniform: false, refc: true, compression: 1, ordered: false, multitree: true, append_only: false, allow_direct_node_access: true\ncol1=preimage: false, uniform: true, refc: false, compression: 2, ordered: true, multitree: false, append_only: true, allow_direct_node_access: false\ncol2=preimage: false, uniform: false, refc: false, compression: 0, ordered: false, multitree: false, append_only: false, allow_direct_node_access: false" ∧
+    fileName .index 3 16 = t!"index_03_16" ∧ fileName .table 12 10 = t!"table_12_0a" ∧
+    fileName .refcount 255 17 = t!"refcount_255_17" ∧
+    filePrefix .index 3 = t!"index_03_" ∧ filePrefix .table 12 = t!"table_12_" ∧
+    filePrefix .refcount 255 = t!"refcount_255_" ∧
+    logName 42 = t!"log42" ∧ metadataName = t!"metadata" ∧ lockName = t!"lock" ∧
+    fromString t!"preimage: true, uniform: false, refc: false, compression: 1, sizes: [96, 128]" =
+      .ok ⟨true, false, false, .Lz4, false, false, false, false⟩ := by
+  decide +kernel
+
+/-- Column descriptions written by old releases end in `, sizes: [..]`: `from_string` cuts
+the text at the literal `sizes: ` and ignores everything after it (here: a later
+`multitree: true`).  The literal itself is pinned. -/
+theorem C17_legacy_sizes_suffix :
+    Gen.Text.fromStringSizesSep = t!"sizes: " ∧
+    fromString t!"preimage: true, uniform: false, refc: false, ordered: true, sizes: [96, 128], multitree: true" =
+      .ok ⟨true, false, false, .NoCompression, true, false, false, false⟩ := by
+  decide +kernel
 
 /-! ## 2. Metadata file round trip -/
 
@@ -133,7 +188,9 @@ theorem C17_prefix_disjoint (c c' : Nat) (k : FileKind) :
     (∀ rest, isColumnFile c (filePrefix k c' ++ rest) = true ↔ c = c') ∧
     (∀ x, isColumnFile c (fileName k c' x) = true ↔ c = c') :=
   ⟨fun rest => isColumnFile_prefix_iff c k c' rest,
-   fun _ => isColumnFile_prefix_iff c k c' _⟩
+   fun x => by
+     obtain ⟨rest, h⟩ := fileName_eq k c' x
+     rw [h]; exact isColumnFile_prefix_iff c k c' rest⟩
 
 -- non-vacuity / sanity on concrete names.
 example : fileName .index 100 16 = t!"index_100_16" ∧ fileName .table 7 10 = t!"table_07_0a" ∧
@@ -172,7 +229,7 @@ theorem C17_admin_other_columns {β : Type} (replay : Dir β → Dir β) (fs : O
   · intro c' k rest hne
     apply admin_frame
     · left
-      cases k <;> (intro h; simp [filePrefix, FileKind.name, metadataName] at h)
+      exact filePrefix_ne_metadata k c' rest
     · intro c hc
       cases hcf : isColumnFile c (filePrefix k c' ++ rest) with
       | false => rfl
@@ -185,7 +242,7 @@ theorem C17_admin_other_columns {β : Type} (replay : Dir β → Dir β) (fs : O
     · intro c _; exact isColumnFile_lock c
   · intro i
     apply admin_frame
-    · left; intro h; simp [logName, metadataName] at h
+    · left; exact logName_ne_metadata i
     · intro c _; exact isColumnFile_log c i
 
 /-- The affected column is empty after a successful call: no name matched by its deletion
@@ -241,6 +298,9 @@ example (new : ColumnOptions) (s : Option (List Nat)) : ∃ d m, some exampleDir
     rfl
 
 #print axioms C17_codec
+#print axioms C17_isValid_table
+#print axioms C17_format_golden
+#print axioms C17_legacy_sizes_suffix
 #print axioms C17_meta_roundtrip
 #print axioms C17_meta_roundtrip_current
 #print axioms C17_open_check
